@@ -325,6 +325,8 @@ var boundsFor = func(c *Ctx, prop string, entries []*ssa.Function) {
 // contractsFor returns the contract hooks of a property (nil = panic obligations only).
 func contractsFor(c *Ctx, prop string) *bounds.Hooks {
 	switch prop {
+	case "C04":
+		return c04Hooks(c)
 	case "C05":
 		return c05Hooks(c)
 	case "C08":
